@@ -58,3 +58,11 @@ pub(crate) fn set_geom(m: &mut RegionMetadata, start: usize, len: usize, reserve
     m.len = len;
     m.reserved = reserved;
 }
+
+pub(crate) fn set_state(m: &mut RegionMetadata, st: u8) {
+    match st {
+        0 => m.state.set_is_clean(),
+        1 => m.state.set_needs_flush(),
+        _ => m.state.set_needs_write(),
+    }
+}
